@@ -2,6 +2,7 @@
    All glue between the text protocol and the model lives here, in Gallina. *)
 From MD Require Import Lib.Base Lib.Latin1 Model.Node Model.Keyword Model.Engine Model.Reference.
 From MD Require Import Model.Flatten Model.Json Model.Query Model.Dec.Carets.
+From MD Require Import Regex.Syntax Regex.Backtrack Generated.Regexes.
 
 Definition bad_args : pval := VErr (L"bad-args").
 
@@ -56,6 +57,16 @@ Fixpoint preorder_nodes (n : node) : list node :=
 
 Definition header_val (n : node) : pval :=
   VList [VStr (n_ty n); VBytes (n_val n); VStr (n_obf n); VInt (n_st n); VInt (n_en n)].
+
+Fixpoint lookup_re (name : list N) (tbl : list (string * (re * nat))) : option (re * nat) :=
+  match tbl with
+  | [] => None
+  | (k, v) :: rest => if beqb (s2b k) name then Some v else lookup_re name rest
+  end.
+
+Definition val_of_mtch (m : mtch) : pval :=
+  VList (map (fun sp => match sp with Some (s, e) => VList [VInt s; VInt e] | None => VList [] end) m).
+Definition no_fuel : pval := VErr (L"regex-fuel").
 
 Definition probe (name : list N) (arg : pval) : pval :=
   if beqb name (L"find_keywords") then
@@ -119,4 +130,26 @@ Definition probe (name : list N) (arg : pval) : pval :=
     match arg with VBytes b => val_of_res (fun p => VList [VBytes (fst p); VStr (snd p)]) (deobfuscate_cmd b) | _ => bad_args end
   else if beqb name (L"paren_cut") then
     match arg with VBytes b => VInt (paren_cut b) | _ => bad_args end
+  else if beqb name (L"finditer") then
+    match arg with
+    | VList [VStr rn; VBytes data] =>
+        match lookup_re rn all_regexes with
+        | Some (r, ng) => match finditer r ng data with Some ms => VList (map val_of_mtch ms) | None => no_fuel end
+        | None => VErr (L"unknown-regex") end
+    | _ => bad_args end
+  else if beqb name (L"re_match_at") then
+    match arg with
+    | VList [VStr rn; VBytes data; VInt k] =>
+        match lookup_re rn all_regexes with
+        | Some (r, ng) => match match_at r ng data k with
+                          | Some (Some m) => VList [val_of_mtch m] | Some None => VList [] | None => no_fuel end
+        | None => VErr (L"unknown-regex") end
+    | _ => bad_args end
+  else if beqb name (L"re_fullmatch") then
+    match arg with
+    | VList [VStr rn; VBytes data] =>
+        match lookup_re rn all_regexes with
+        | Some (r, _) => match fullmatch r data with Some b => VBool b | None => no_fuel end
+        | None => VErr (L"unknown-regex") end
+    | _ => bad_args end
   else VErr (L"unknown-probe").
